@@ -69,6 +69,7 @@ class C05(CacheProp):
                 if rng.random() < 0.4:
                     pat += ["tick 4000000000", "sweep", "get %s %s" % (k, cf)]
                 new += pat
+            new += ["tok"] * min(60, 2 + sum(1 for o in new if o.startswith("set ")))
             c.ops = new + ops[pos:]
         return cases
 
